@@ -104,7 +104,7 @@ def op(rng):
         return "bus mw 0d4 %x" % rng.choice([0, 0x100, 0x1000, 0x2000, 0x3100])   # mailbox interrupt-disable bits
     if m < 25:
         return "bus hw16 %x %x" % (rng.bits(20), rng.bits(16))
-    return "bus poke %s %x" % (rng.choice(["ie", "im0", "imv", "sp", "r0", "a0", "st0_dummy"][:6]), rng.bits(16))
+    return "bus poke %s %x" % (rng.choice(["ie", "im0", "imv", "sp", "r0", "a0"]), rng.bits(16))
 
 
 def observe(rng):
@@ -117,11 +117,21 @@ def observe(rng):
         q = rng.below(16)
         s += ["bus mr %x" % (0x212 + 4 * q), "bus mr %x" % (0x214 + 4 * q)]
     s += ["bus send 0 1234", "bus mw 0d4 0", "bus send 1 4321", "bus ticks 5", "bus state"]
+    # the core after the history: a few cycles of whatever is in program memory (after a Reset: zeros = nop)
+    s += ["bus run 8", "bus reg pc", "bus reg r0", "bus steps 3", "bus state"]
     return s
 
 
 def history(rng, n):
-    return [op(rng) for _ in range(n)]
+    h = [op(rng) for _ in range(n)]
+    if rng.chance(1, 2):
+        # the core runs: a short program that parks in the idle self-branch (or a busy loop), so that the interpreter's
+        # private state (idle flag, latches) is dirty too
+        prog = rng.choice([["bus pw 0 57f0"], ["bus pw 0 88", "bus pw 1 57f0"], ["bus pw 0 88", "bus pw 1 57e0"],
+                           ["bus pw 0 4380", "bus pw 1 57f0", "bus mw 206 400", "bus mw 24 3", "bus mw 20 604"]])
+        k = rng.below(len(h) + 1)
+        h[k:k] = prog + ["bus run %x" % rng.choice([3, 6, 20])]
+    return h
 
 
 def case(rng):
